@@ -13,7 +13,11 @@ tvars == <<ps, l>>
 E == Trace[l]
 IsEvent(e) == l <= Len(Trace) /\ E.e = e /\ l' = l + 1
 
-TReset       == IsEvent("reset")       /\ ps' = PNew(E.api, E.workers)
+\* the worker configuration of the call is logged raw (was WithWorkers passed, with which int; the package's default);
+\* what it means is the spec's business (EffWorkers).  Traces recorded before that carry the effective count.
+TReset       == IsEvent("reset")       /\ ps' = PNew(E.api, IF "wopt" \in DOMAIN E
+                                                               THEN EffWorkers(E.wset, E.wopt, E.defw)
+                                                               ELSE E.workers)
 TCallStart   == IsEvent("callStart")   /\ CallStartOK            /\ CallStartEff
 TGenSend     == IsEvent("genSend")     /\ GenSendOK(E.i)         /\ GenSendEff(E.i)
 TGenEnd      == IsEvent("genEnd")      /\ GenEndOK(E.how, E.p)   /\ GenEndEff(E.how, E.p)
